@@ -55,6 +55,16 @@ fn heads() -> &'static Heads {
 pub fn run_shorts(cx: &mut Ctx, idx: u64) {
     let s = short_bytes(idx);
     let what = || format!("bytes {:02X?}", s);
+    if s.len() >= 3 {
+        // 3-byte strings (thorough): bare contexts only
+        eps::pdu_eps(cx, &s, "bare", &what, true);
+        eps::meta_ep(cx, &s, "bare", &what);
+        eps::file_eps(cx, &s, "bare", &what, Depth::Lean, false);
+        for ti in 0..3 {
+            eps::dataset_eps(cx, ti, &s, &what, Depth::Lean);
+        }
+        return;
+    }
     // PDU reader: bare, and as the body of every PDU type
     eps::pdu_eps(cx, &s, "bare", &what, false);
     for t in [1u8, 2, 3, 4, 5, 6, 7, 0xFF] {
